@@ -61,6 +61,7 @@ def spell_width(draw, w):
 @st.composite
 def cases(draw):
     mut = draw(st.sampled_from(MUTATORS))
+    full = draw(st.sampled_from([(False, False), (False, False), (False, False), (True, False), (False, True), (True, True)]))
     nnames = draw(st.integers(1, 3))
     names = []
     for q in range(nnames):
@@ -91,7 +92,7 @@ def cases(draw):
     def free_group():
         b = draw(instruction_body())
         assume(" " not in "".join(b[1]))
-        d = describe_inst(draw, ("0", b[0], b[2]))
+        d = describe_inst(draw, ("0", b[0], b[2]), full)
         which = draw(st.sampled_from(["item", "$or", "$not", "times", "$not-times", "$or-times", "$and-times", "$and_any_order"]))
         if which == "item":
             return d, [list(b)]
@@ -156,7 +157,7 @@ def cases(draw):
             # optional plain operand before
             if draw(st.integers(0, 3)) == 0:
                 o = draw(st.sampled_from(OPERANDS))
-                d = describe_operand(draw, o[1])
+                d = describe_operand(draw, o[1], full[1])
                 if d is not None:
                     pats.append(d)
                     oa.append(o[0])
@@ -286,7 +287,7 @@ def cases(draw):
         L.append([format(a, "x"), m, list(oa), list(on)])
         a += draw(st.integers(1, 7))
     multi = any(v >= 2 for v in occurrences.values())
-    return {"mut": applied if mut != "none" else "none", "asked": mut, "listing": L, "pattern": pattern, "kinds": sorted({n["kind"] for n in names}), "multi": multi}
+    return {"flags": list(full), "mut": applied if mut != "none" else "none", "asked": mut, "listing": L, "pattern": pattern, "kinds": sorted({n["kind"] for n in names}), "multi": multi}
 
 
 def strategy(tier):
@@ -297,8 +298,9 @@ def evaluate(case):
     ev = Eval()
     ev.subcases = 0
     L, pattern = case["listing"], case["pattern"]
-    exp, spans, _ = compare(ev, pattern, L)
-    ev.tags = [f"mut={case['mut']}", "expect=found" if exp else "expect=notfound"] + [f"kind={k}" for k in case["kinds"]]
+    mn_full, op_full = case.get("flags", [False, False])
+    exp, spans, _ = compare(ev, pattern, L, mn_full or None, op_full or None)
+    ev.tags = (["flags=full"] if (mn_full or op_full) else []) + [f"mut={case['mut']}", "expect=found" if exp else "expect=notfound"] + [f"kind={k}" for k in case["kinds"]]
     near = case["mut"] != "none"
     if near:
         ev.tags.append("near-miss")
